@@ -200,11 +200,50 @@ class SimRLock:
         return self._count if self._owner == _thread.get_ident() else 0
 
 
+_RealCondition = threading.Condition
+
+
+class SimCondition(_RealCondition):
+    """threading.Condition whose wait() parks the actor in the scheduler (the stock one blocks the kernel
+    thread on a private real lock: a wait that nobody ends would hang the simulator instead of showing up as
+    a worker that never comes back).  Outside an actor it behaves like the stock class."""
+
+    def wait(self, timeout=None):
+        sim = _CURRENT_SIM
+        me = sim.me() if sim is not None and not sim.closed else None
+        if me is None or me.is_main:
+            return super().wait(timeout)
+        if not self._is_owned():
+            raise RuntimeError("cannot wait on un-acquired lock")
+        waiter = SimLock()
+        waiter.acquire()
+        self._waiters.append(waiter)
+        saved_state = self._release_save()
+        gotit = False
+        try:
+            if timeout is None:
+                waiter.acquire()
+                gotit = True
+            elif timeout > 0:
+                gotit = waiter.acquire(True, timeout)
+            else:
+                gotit = waiter.acquire(False)
+            return gotit
+        finally:
+            self._acquire_restore(saved_state)
+            if not gotit:
+                try:
+                    self._waiters.remove(waiter)
+                except ValueError:
+                    pass
+
+
 def install_sim_locks():
     """Make locks created from now on (in particular module-level locks of the
     code under test, created at import) simulation-aware."""
     threading.Lock = SimLock
     threading.RLock = SimRLock
+    threading.Condition = SimCondition
 
 
 class SimThread(_RealThread):
@@ -222,7 +261,7 @@ class SimThread(_RealThread):
         # matter of real timing) the parent would *yield the baton* inside start().  The handshake belongs to
         # the interpreter, not to the simulated program: give it real locks.
         ev = threading.Event.__new__(threading.Event)
-        ev._cond = threading.Condition(_real_allocate_lock())
+        ev._cond = _RealCondition(_real_allocate_lock())
         ev._flag = False
         self._started = ev
 
